@@ -13,6 +13,7 @@ import os
 import shutil
 import subprocess
 import sys
+import time
 
 VERIF = os.path.dirname(os.path.dirname(os.path.abspath(__file__)))
 REPO = os.path.abspath(os.environ.get("VERIF_REPO", "/repo"))
@@ -64,11 +65,15 @@ def ensure_home():
     for name in os.listdir(os.path.join(src, "isa")):
         if name.endswith(".yml"):
             _link(os.path.join(src, "isa", name), os.path.join(data, "isa", name))
-    # purge homes of other code versions (disk)
+    # purge homes of other code versions (disk) - only stale ones, a concurrently running check
+    # against another tree (VERIF_REPO) must keep its home
     try:
+        os.utime(home)
+        now = time.time()
         for d in os.listdir(CACHE_ROOT):
-            if d.startswith("home-") and os.path.join(CACHE_ROOT, d) != home:
-                shutil.rmtree(os.path.join(CACHE_ROOT, d), ignore_errors=True)
+            full = os.path.join(CACHE_ROOT, d)
+            if d.startswith("home-") and full != home and now - os.path.getmtime(full) > 6 * 3600:
+                shutil.rmtree(full, ignore_errors=True)
     except OSError:
         pass
     return home
@@ -108,6 +113,7 @@ def setup_process():
 
 _WARM = r"""
 import sys
+import time
 from osaca.semantics import MachineModel
 from osaca import utils
 for a in sys.argv[1:]:
